@@ -239,6 +239,9 @@ type Discharged struct {
 // dischargeAll solves every obligation of a result in parallel.
 var skipObligation func(name string) bool
 
+// shortObligation: obligations of open known findings are only re-confirmed briefly
+var shortObligation func(name string) bool
+
 func dischargeAll(results []*Result, outDir string, timeoutS int, workers int) map[*Obligation]*Discharged {
 	os.MkdirAll(outDir, 0o755)
 	type job struct {
@@ -283,10 +286,14 @@ func dischargeAll(results []*Result, outDir string, timeoutS int, workers int) m
 					mu.Unlock()
 					continue
 				}
+				tmo := timeoutS
+				if shortObligation != nil && shortObligation(j.o.Name) && tmo > 6 {
+					tmo = 6
+				}
 				if itext != "" {
 					ifile := strings.TrimSuffix(file, ".smt2") + ".inst.smt2"
 					os.WriteFile(ifile, []byte(itext), 0o644)
-					res = solveFile(ifile, timeoutS, nil)
+					res = solveFile(ifile, tmo, nil)
 					if res.Status == "unsat" {
 						res.Solver += "+inst"
 					}
@@ -296,7 +303,7 @@ func dischargeAll(results []*Result, outDir string, timeoutS int, workers int) m
 					instSat = res.Solver
 				}
 				if res.Status != "unsat" {
-					t := timeoutS
+					t := tmo
 					if res.Status == "sat" && t > 10 {
 						// the ground-instantiated query has a model: the full query is rarely unsat
 						t = 10
